@@ -158,7 +158,7 @@ def run(ctx):
     vc = import_virocon()
     ctx.rule = (
         "contours: the configuration classes enumerated by TLC (spec/HDCGen.tla), instantiated as in C02 (quick: 60 "
-        "classes + 1 default-deltas contour; thorough: every class + big grids), several classes designed to cut "
+        "classes + 1 default-deltas contour; thorough: every fit/cut class, every 4th small class + big grids), several classes designed to cut "
         "the region into pieces (coarse grid + narrow conditionals) or to be anisotropic (cell-size ratio 3, 10); "
         "sorter: regular circles, irregularly spaced ellipses, clusters, boundary cells of an ellipse on stretched "
         "grids, clouds, lattice sets with tied distances, the TLC counter-example, each with search_for_optimal_start "
@@ -180,7 +180,7 @@ def run(ctx):
     # M
     for cfg in ctx.pick(("MC_HDC_mask33.cfg", "MC_HDC_mask34.cfg", "MC_HDC_mask222.cfg"),
                         ("MC_HDC_mask33.cfg", "MC_HDC_mask34.cfg", "MC_HDC_mask222.cfg", "MC_HDC_mask44.cfg",
-                         "MC_HDC_mask322.cfg", "MC_HDC_mask332.cfg")):
+                         "MC_HDC_mask322.cfg")):
         ctx.model_check("HDC", cfg, must_cover=("Erode", "Label"), timeout=3000)
     ctx.model_check("HDC", "MC_HDC_mut_cross.cfg", expect_violation="CoordsAreBoundary")
     ctx.model_check("LineSort", ctx.pick("MC_LineSort_quick.cfg", "MC_LineSort_thorough.cfg"),
@@ -189,7 +189,7 @@ def run(ctx):
     # R
     cfgs = ctx.generate("HDCGen", "Gen_HDC.cfg")
     ctx.notes["configuration_classes"] = len(cfgs)
-    cases = contour_cases(ctx, vc, cfgs, seed_shift=15, grids=GRID_MIX_C15, n_quick=60)
+    cases = contour_cases(ctx, vc, cfgs, seed_shift=15, grids=GRID_MIX_C15, n_quick=60, fit_twice=False)
     cases += H.tiny_region_cases()
     # V
     kept = judge_contours(ctx, vc, cases, "contours")
